@@ -346,10 +346,33 @@ def register(reg):
             calls.append((a[0], a[1], a[2], node))
             return (node, None)
         w.fields['parse_content'] = Builtin('parse_content', parse_content)
+        # the reader as the arguments parser may use it: looking ahead is free (and may see any kind of token, or the end of
+        # the input); every call that MOVES it is logged -- only the argument parsers, called through parse_content, read input
+        moves = ctx.ghost.setdefault('reader_moves', [])
+
+        def peek(it2, sf, a, kw):
+            seen = it2.ctx.ghost.setdefault('peeks', [])
+            if len(seen) >= 3:
+                return None           # (bounds the look-ahead model: at most three tokens are ever shown)
+            k = it2.ctx.choose(4, 'what stands before the argument')
+            if k == 0:
+                return None
+            seen.append(k)
+            return mk_tok(it2, kind=['comment', 'char', 'brace_open'][k - 1], name='peeked%d' % it2.ctx.next_id())
+
+        def mover(name):
+            def f(it2, sf, a, kw):
+                moves.append(name)
+                return None
+            return f
         tr = AbsVal(z3.Int('token_reader'), 'reader',
-                    methods={'peek_token_or_none': lambda it2, sf, a, kw: None})
+                    methods=dict({'peek_token_or_none': peek, 'peek_token': peek, 'cur_pos': lambda it2, sf, a, kw: it2.ctx.fresh_int('cur_pos')},
+                                 **{m: mover(m) for m in ('move_past_token', 'move_to_token', 'move_to_pos_chars', 'next_token',
+                                                          'skip_space_chars', 'peek_space_chars')}))
         parser = new_obj(it, ARGP, {'arguments_spec_list': PyList(specs)}, tag='self')
         return {'self': parser, 'latex_walker': w, 'token_reader': tr, 'parsing_state': ps, 'kwargs': PyDict()}
+
+    reg.spec('reader_moves')(lambda it: len(it.ctx.ghost.get('reader_moves', [])))
 
     @reg.spec('arguments_parsed_in_their_states')
     def arguments_parsed_in_their_states(it, parser, ps, tr, result):
@@ -378,6 +401,8 @@ def register(reg):
     c = Contract(ARGP + '.parse', setup=setup_args,
                  ensures=[('internal:each-argument-is-parsed-by-its-parser-in-the-state-its-delta-yields-in-order',
                            'arguments_parsed_in_their_states(self, parsing_state, token_reader, result[0])'),
+                          ('internal:input-is-read-by-the-argument-parsers-only-the-arguments-parser-itself-never-moves-the-reader',
+                           'reader_moves() == 0'),
                           ('no-state-change-leaks-out-of-the-arguments', 'result[1] is None')],
                  modifies=[])
     units['LatexArgumentsParser.parse'] = FunctionUnit(c, inline=INL_DELTA | {PARGS + '.__init__'})
